@@ -473,7 +473,7 @@ func (f *frame) applyContractX(fc *FuncContract, args []Val, ptypes []types.Type
 		goal := v.trClause(pre, cl)
 		name := fmt.Sprintf("%s/pre@%s#%d@%d", v.fc.Key, fc.Key, cl.Ord, site)
 		v.oblige("pre", name, cl.Tags, f.reach, goal, v.pos(pos), cl.Src)
-		f.reach = v.ctx.Define("reach", And(f.reach, goal))
+		f.reach = v.narrow(f.reach, goal)
 	}
 	// ---- modifies
 	post := f.cur
